@@ -65,6 +65,7 @@ class Lemma:
         c.children = cg.v_children
         c.child_sem = self.child_sem
         c.stack_end = z3.Int('stack_end')
+        c.max_revisits = 2
         # --- symbolic compile-time frame
         self.OMAX = 1 << (self.bits - 3)
         self.O = S.symbol('O', lo=w, hi=self.OMAX)            # frame offset at entry (at least the RA slot)
